@@ -2,7 +2,7 @@ PROP = dict(
         engine="query", harness="query", driver="drv_query",
         props=["Hostd.Props.C19"],
         # n = stored populations (each: v1 + v2 contracts, 0..130 per version), len = listing requests per population
-        quick=dict(n=64, len=150, shards=8, timeout=300),
+        quick=dict(n=256, len=150, shards=16, timeout=300),
         thorough=dict(n=6000, len=300, shards=16, timeout=1500),
         nontrivial=r"^query\d .*=> err=none ids=\[\d", min_ops=8, min_kinds=3,
         shrink_budget=80,
